@@ -49,6 +49,8 @@ def enc_files(files):
             out.append('X')
         elif isinstance(d, tuple) and d[0] == 'raw':
             out.append('R' + hx(d[1]))
+        elif isinstance(d, tuple) and d[0] == 'bytes':
+            out.append('B' + binascii.hexlify(d[1]).decode())
         elif isinstance(d, tuple) and d[0] == 'link':
             out.append('Y' + hx(d[1]))
         else:
@@ -73,7 +75,7 @@ def op_node(name):
 
 def show_inv(inv, op=''):
     def f(files):
-        return {'/'.join(p): ('<dir>' if d == 'X' else (d[1] if isinstance(d, tuple) and d[0] in ('raw', 'link') else show(d)))
+        return {'/'.join(p): ('<dir>' if d == 'X' else (repr(d[1]) if isinstance(d, tuple) and d[0] in ('raw', 'link', 'bytes') else show(d)))
                 for p, d in sorted(files.items())}
     return json.dumps({'classes': f(inv.classes), 'nodes': f(inv.nodes), 'ignore': inv.ignore, 'compose': inv.compose,
                        'literal_dots': inv.dots, 'patterns': inv.patterns, 'op': op}, ensure_ascii=False)
